@@ -10,6 +10,9 @@ correspond: generated XMILE documents (equation-grammar fuzzer with spelling var
             CPython's own parse of the real text is compared with the model's tree.
 reference : every variable of every compiled model is evaluated and compared with an independent XMILE
             evaluator (own tokenizer, own precedence climbing, float arithmetic); unsupported equations must raise.
+wave 2    : signed literals are one IR node (`nnum`) in the model; systematic signed-literal equations; per equation the driver
+            also reports `irok` / `vflat` (token comparison alone validates, theorem `validate_of_flat`); delay/smooth helper
+            family (DELAY1/3/N, SMTH3/N, DELAY, DERIVN, NPV) against grid definitions, Cfg fact `helperKeysNormalise`; corpus.
 """
 import copy, importlib.util, json, logging, math, re
 import numpy as np
@@ -24,7 +27,11 @@ VOCAB = [("()", 1), ("if", 3), ("abs", 1), ("min", 2), ("max", 2), ("min", 3), (
          ("rootn", 2), ("pi", 0), ("time", 0), ("dt", 0), ("starttime", 0), ("stoptime", 0), ("init", 1)]
 # further builtins that format operands into infix text (outside the C03 vocabulary; obligation `extended_ok`)
 EXTENDED = [("sinwave", 2, None), ("coswave", 2, None), ("cgrowth", 1, None), ("pulse", 1, None), ("pulse", 2, None),
-            ("pulse", 3, [None, None, 2.0]), ("pmt", 4, [None, None, None, 0.0]), ("pv", 4, [None, None, None, 0.0])]
+            ("pulse", 3, [None, None, 2.0]), ("pmt", 4, [None, None, None, 0.0]), ("pv", 4, [None, None, None, 0.0]),
+            # delay / smooth family: operands must sit in call-argument positions of the helper call
+            ("delay1", 2, None), ("delay1", 3, None), ("delay3", 2, None), ("delay3", 3, None), ("delayn", 3, None), ("delayn", 4, None),
+            ("smth3", 2, None), ("smth3", 3, None), ("smthn", 3, None), ("smthn", 4, None), ("npv", 2, None), ("derivn", 2, None),
+            ("forcst", 3, None), ("forcst", 4, None), ("delay", 3, None)]
 
 
 def ph(i):
@@ -81,9 +88,26 @@ def probe():
         except Exception as ex:
             facts["unknownBuiltinRaises"] = True
             facts["unknown_result"] = f"{type(ex).__name__}: {ex}"
+        facts["helperKeysNormalise"], facts["helper_probe"] = probe_helper_keys()
     finally:
         logging.disable(logging.NOTSET)
     return facts
+
+
+def probe_helper_keys():
+    """behavioural probe of the mechanism `mem` of the delay/smooth helper normalises its time argument: DELAY1 of a ramp
+    with dt = 0.1 on a fresh instance at t = 0.4 — four steps when the keys are snapped onto the grid, five with raw floats"""
+    d = scratch_dir("bptkverif_c03p_")
+    try:
+        xml = delay_doc_xml([("inp", "TIME"), ("y", "DELAY1(inp, 2)")], 0, 2, "0.1", False)
+        ir, sim, _ = real_compile(xml, d, "hk")
+        got = sim.equation("y", 0.4)
+        exp = ref_cascade(lambda t, s: t, 2.0, 1, None, 0.0, 0.1, 4)[4]
+        return same_val_tol(got, exp), f"DELAY1(TIME, 2), dt 0.1, t 0.4: {got!r} (grid definition {exp!r})"
+    except BaseException as ex:
+        return False, f"probe failed: {type(ex).__name__}: {str(ex)[:120]}"
+    finally:
+        shutil.rmtree(d, ignore_errors=True)
 
 
 def lean_toks(words):
@@ -99,7 +123,8 @@ def cfg_lean(facts):
             + "def cfg : Cfg := {\n  opT := opT,\n"
             + f"  notT := {{ cls := \"not\", arity := 1, toks := {lean_toks(facts['not'])} }},\n"
             + f"  fns := fns,\n  identT := {lean_toks(facts['ident'])},\n  identInitT := {lean_toks(facts['identInit'])},\n"
-            + f"  unknownBuiltinRaises := {'true' if facts['unknownBuiltinRaises'] else 'false'} }}\n"
+            + f"  unknownBuiltinRaises := {'true' if facts['unknownBuiltinRaises'] else 'false'},\n"
+            + f"  helperKeysNormalise := {'true' if facts['helperKeysNormalise'] else 'false'} }}\n"
             + "end Bptk.C03.Gen\n")
 
 
@@ -742,6 +767,187 @@ def check_loud(form, eq, d, tag):
     return False, f"value {v!r}"
 
 
+
+# ------------------------------------------------------------------ delay / smooth family (helpers of jinja_template.py)
+# These builtins recurse on `t - dt` inside private helpers; what the statement fixes for them is the standard definition on
+# the time GRID: an n-th order exponential delay/smooth is a cascade of n first-order stocks advanced once per grid interval.
+DELAY_DTS = [("1", 1.0, False), ("0.5", 0.5, False), ("0.25", 0.25, False), ("0.1", 0.1, False), ("0.2", 0.2, False),
+             ("0.05", 0.05, False), ("3", 1 / 3, True), ("7", 1 / 7, True), ("10", 1 / 10, True)]
+DELAY_INPUTS = [("TIME*TIME + 1", lambda t, s: t * t + 1), ("10 - 2*TIME", lambda t, s: 10 - 2 * t),
+                ("3", lambda t, s: 3.0), ("STEP(5, STARTTIME + 1) + 2", lambda t, s: (0 if t < (s + 1) else 5.0) + 2)]
+
+
+def delay_doc_xml(eqs, start, stop, dt_text, recip):
+    body = "".join(f'\n\t\t\t<aux name="{xml_escape(n)}">\n\t\t\t\t<eqn>{xml_escape(e)}</eqn>\n\t\t\t</aux>' for n, e in eqs)
+    dt = f'<dt reciprocal="true">{dt_text}</dt>' if recip else f'<dt>{dt_text}</dt>'
+    return (f'<?xml version="1.0" encoding="utf-8"?>\n<xmile version="1.0" xmlns="http://docs.oasis-open.org/xmile/ns/XMILE/v1.0">\n'
+            f'\t<header>\n\t\t<name>c03delay</name>\n\t\t<vendor>verif</vendor>\n\t</header>\n'
+            f'\t<sim_specs method="Euler" time_units="Months">\n\t\t<start>{start}</start>\n\t\t<stop>{stop}</stop>\n\t\t{dt}\n\t</sim_specs>\n'
+            f'\t<model>\n\t\t<variables>{body}\n\t\t</variables>\n\t</model>\n</xmile>\n')
+
+
+def ref_cascade(inp, T, n, init, start, dt, K):
+    """n first-order stocks in a row, each with time constant T/n; one Euler step per grid interval; grid times start + k*dt"""
+    x0 = inp(start, start) if init is None else init
+    st = [max(0, x0)] * n
+    out = [st[-1]]
+    for k in range(K):
+        t = start + k * dt
+        ch = [((inp(t, start) if i == 0 else st[i - 1]) - st[i]) / (T / n) for i in range(n)]
+        st = [st[i] + dt * ch[i] for i in range(n)]
+        out.append(st[-1])
+    return out
+
+
+def ref_delay(inp, off_steps, init, start, dt, K):
+    """pure delay by a whole number of steps: the input `off_steps` grid points earlier, `init` before the start"""
+    return [(inp(start, start) if init is None else init) if k < off_steps else inp(start + (k - off_steps) * dt, start) for k in range(K + 1)]
+
+
+def ref_derivn(inp, order, start, dt, K):
+    """n-th backward difference quotient over dt; 0 while fewer than `order` intervals have elapsed"""
+    x = [inp(start + k * dt, start) for k in range(K + 1)]
+    d = [x]
+    for o in range(1, order + 1):
+        prev = d[-1]
+        d.append([0 if k < 1 else (prev[k] - (prev[k - 1] if (o == 1 or k - 1 >= 1) else 0)) / dt for k in range(K + 1)])
+    return [d[order][k] if k >= order else 0 for k in range(K + 1)]
+
+
+def ref_npv(inp, p, start, dt, K):
+    """step-count reference: the helper's own recurrence on grid indices (value of the stream at the query time, discounted sum of dt)"""
+    out = []
+    for k in range(K + 1):
+        x = inp(start + k * dt, start)
+        acc = x
+        for j in range(1, k + 1):
+            acc = acc + dt * (1.0 / (1.0 + p) ** (j * dt)) * x
+        out.append(acc)
+    return out
+
+
+def delay_cases(rng, quick):
+    """(label, equation text, reference builder) over the dt / start lattice"""
+    fams = []
+    for fn, n in [("DELAY1", 1), ("DELAY3", 3), ("SMTH3", 3)]:
+        fams.append((fn, lambda i, T, n=n, fn=fn: f"{fn}(inp, {T})", lambda inp, T, s, dt, K, n=n: ref_cascade(inp, T, n, None, s, dt, K)))
+        fams.append((fn + "+init", lambda i, T, n=n, fn=fn: f"{fn}(inp, {T}, 4)", lambda inp, T, s, dt, K, n=n: ref_cascade(inp, T, n, 4.0, s, dt, K)))
+    for fn in ["DELAYN", "SMTHN"]:
+        for n in (1, 2, 4):
+            fams.append((f"{fn}/{n}", lambda i, T, n=n, fn=fn: f"{fn}(inp, {T}, {n})", lambda inp, T, s, dt, K, n=n: ref_cascade(inp, T, n, None, s, dt, K)))
+        fams.append((f"{fn}/2+init", lambda i, T, fn=fn: f"{fn}(inp, {T}, 2, 1.5)", lambda inp, T, s, dt, K: ref_cascade(inp, T, 2, 1.5, s, dt, K)))
+    for o in (1, 2, 3):
+        fams.append((f"DERIVN/{o}", lambda i, T, o=o: f"DERIVN(inp, {o})", lambda inp, T, s, dt, K, o=o: ref_derivn(inp, o, s, dt, K)))
+    fams.append(("NPV", lambda i, T: "NPV(inp, 0.1)", lambda inp, T, s, dt, K: ref_npv(inp, 0.1, s, dt, K)))
+    for steps in (1, 3):
+        fams.append((f"DELAY/{steps}", ("delay", steps, None), None))
+        fams.append((f"DELAY/{steps}+init", ("delay", steps, 99.0), None))
+    cases = []
+    dts = DELAY_DTS if not quick else [d for d in DELAY_DTS if d[0] in ("1", "0.25", "0.1", "0.2", "3", "7")]
+    for dt_text, dt, recip in dts:
+        for start in ((0, 2) if quick else (0, 1, 2, 2020)):
+            for ii, (itext, ifn) in enumerate(DELAY_INPUTS):
+                if quick and not rng.chance(1, 2) and ii != 0:
+                    continue
+                cases.append((dt_text, dt, recip, start, itext, ifn, fams))
+    return cases
+
+
+def run_delay_family(chk, rng, d, stats):
+    """returns the first reference failure (replay dict) per defect class: {finding key: replay}"""
+    K = 12
+    fails = {}
+    fail = None
+    st = stats.setdefault("delay_family", {"documents": 0, "values_compared": 0, "raised": {}, "by_builtin": {}})
+    for ci, (dt_text, dt, recip, start, itext, ifn, fams) in enumerate(delay_cases(rng, chk.quick)):
+        stop = start + 4
+        T = rng.choice(["2", "1.5", "3"])
+        eqs, refs = [("inp", itext)], {}
+        for fi, (label, mk, rf) in enumerate(fams):
+            name = f"y{fi}"
+            if isinstance(mk, tuple):
+                _, steps, init = mk
+                off = repr(round(steps * dt, 12)) if not recip else f"{steps}/{dt_text}"
+                eqs.append((name, f"DELAY(inp, {off})" if init is None else f"DELAY(inp, {off}, {init})"))
+                refs[name] = (label, ref_delay(ifn, steps, init, start, dt, K))
+            else:
+                eqs.append((name, mk(fi, T)))
+                refs[name] = (label, rf(ifn, float(T), start, dt, K))
+        xml = delay_doc_xml(eqs, start, stop, dt_text, recip)
+        try:
+            ir, sim, pysrc = real_compile(xml, d, f"dl{ci}")
+        except BaseException as ex:
+            if fail is None:
+                fail = {"kind": "delay", "variables": [list(x) for x in eqs], "start": start, "stop": stop, "dt_text": dt_text, "reciprocal": recip,
+                        "variable": None, "k": None, "observed": f"compile: {type(ex).__name__}: {str(ex)[:200]}", "expected": "compiles"}
+            continue
+        st["documents"] += 1
+        chk.case(("delay", dt_text, recip, start, itext, T), nontrivial=True, sample={"dt": dt_text, "reciprocal": recip, "start": start, "input": itext})
+        sdt = sim.dt
+        for name, (label, ref) in refs.items():
+            for order in ("asc", "single"):
+                ks = range(K + 1) if order == "asc" else [K, 4]
+                inst = sim if order == "asc" else None
+                for k in ks:
+                    if order == "single":           # fresh instance, one late point: the helper's recursion runs down from there
+                        import importlib.util as iu
+                        spec_ = iu.spec_from_file_location(f"c03_dl{ci}_{name}_{k}", os.path.join(d, f"dl{ci}.py"))
+                        mod_ = iu.module_from_spec(spec_); spec_.loader.exec_module(mod_)
+                        inst = mod_.simulation_model()
+                    t = 1.0 * round(sdt * k + start, 10)
+                    try:
+                        got = inst.equation(name, t)
+                    except BaseException as ex:
+                        got = ex
+                    st["values_compared"] += 1
+                    bb = st["by_builtin"].setdefault(label.split("/")[0].split("+")[0], 0)
+                    st["by_builtin"][label.split("/")[0].split("+")[0]] = bb + 1
+                    exp = ref[k]
+                    okv = (not isinstance(got, BaseException)) and same_val_tol(got, exp)
+                    fkey = ("value:derivn-step" if label.startswith("DERIVN") else "value:delay-start" if label.startswith("DELAY/")
+                            else "value:helper-time-grid")
+                    if not okv and fkey not in fails:
+                        fails[fkey] = {"kind": "delay", "variables": [["inp", itext], [name, dict(eqs)[name]]], "start": start, "stop": stop, "dt_text": dt_text,
+                                "reciprocal": recip, "variable": name, "k": k, "t": t, "order": order, "builtin": label,
+                                "observed": repr(got), "expected": repr(exp)}
+    # FORCST: cannot be evaluated on this tree (refers to model equations 'averageInput' / 'averagingTime'); loud, so allowed
+    try:
+        ir, sim, _ = real_compile(delay_doc_xml([("inp", "TIME + 1"), ("y", "FORCST(inp, 2, 1)")], 0, 4, "0.5", False), d, "dlf")
+        try:
+            st["forcst"] = f"value {sim.equation('y', 1.0)!r} (not compared)"
+        except BaseException as ex:
+            st["forcst"] = f"raises at evaluation: {type(ex).__name__}"
+    except BaseException as ex:
+        st["forcst"] = f"raises at compile: {type(ex).__name__}"
+    if fail is not None:
+        fails.setdefault("value:helper-time-grid", fail)
+    return fails or None
+
+
+def same_val_tol(got, exp):
+    try:
+        g, e = float(got), float(exp)
+        return g == e or abs(g - e) <= 1e-9 * max(1.0, abs(e))
+    except Exception:
+        return False
+
+
+def delay_replay(r):
+    d = scratch_dir("bptkverif_c03r_")
+    try:
+        xml = delay_doc_xml([tuple(x) for x in r["variables"]], r["start"], r["stop"], r["dt_text"], r["reciprocal"])
+        try:
+            ir, sim, _ = real_compile(xml, d, "r")
+        except BaseException as ex:
+            return f"compile: {type(ex).__name__}: {str(ex)[:200]}"
+        try:
+            return repr(sim.equation(r["variable"], r["t"]))
+        except BaseException as ex:
+            return repr(ex)
+    finally:
+        shutil.rmtree(d, ignore_errors=True)
+
+
 # ------------------------------------------------------------------ the check
 def run(chk):
     quiet_bptk_logging()
@@ -759,7 +965,9 @@ def run(chk):
     shapes = dict(x.split("=", 1) for x in drive("C03", ["shapes"])[0].split(";"))
     chk.notes["probe"] = {"templates_not_ok": bad, "missing": missing, "problems": facts["problems"],
                           "unknownBuiltinRaises": facts["unknownBuiltinRaises"], "unknown_result": facts["unknown_result"]}
-    good = not bad and not missing and facts["unknownBuiltinRaises"]
+    chk.notes["probe"]["helperKeysNormalise"] = facts["helperKeysNormalise"]
+    chk.notes["probe"]["helper_probe"] = facts["helper_probe"]
+    good = not bad and not missing and facts["unknownBuiltinRaises"] and facts["helperKeysNormalise"]
     # witness trees for templates that are not ok: f(2+7 …) in a product
     wit_thms, witnesses = [], []
     if not good:
@@ -795,9 +1003,13 @@ def run(chk):
         if not facts["unknownBuiltinRaises"]:
             ob += ("theorem violated : ¬ C03_full cfg xmilePrec := C03_witness_unknown cfg xmilePrec (by decide) (by decide +kernel)\n"
                    "#print axioms violated\n")
+        if not facts["helperKeysNormalise"]:
+            ob += ("theorem violated_helper_keys : ¬ C03_full cfg xmilePrec := C03_witness_helper_keys cfg xmilePrec (by decide)\n"
+                   "#print axioms violated_helper_keys\n")
     gen = ("import Bptk.Props.C03\nimport Bptk.Gen.C03Cfg\n/-! GENERATED on every run. -/\nnamespace Bptk.C03.Gen\nopen Bptk.Py Bptk.C03\n"
            + ob + "end Bptk.C03.Gen\n")
-    ok, why = chk.prove(gen, extra_sources=["Bptk/Gen/C03Cfg.lean", "Bptk/Proofs/PyFrag.lean", "Bptk/Core/PyFrag.lean"])
+    ok, why = chk.prove(gen, extra_sources=["Bptk/Gen/C03Cfg.lean", "Bptk/Proofs/PyFrag.lean", "Bptk/Proofs/PySound.lean", "Bptk/Proofs/PyDet.lean",
+                                              "Bptk/Core/PyFrag.lean"])
     chk.cov["trusted_base"] = [
         "Lean 4.33 kernel; axioms ⊆ {propext, Classical.choice, Quot.sound}; `decide +kernel` for the per-run obligations on the probed configuration",
         "A1 grammar of the Python fragment (CPython binding powers) — every emitted text is also parsed by ast.parse and compared",
@@ -805,11 +1017,31 @@ def run(chk):
         "placeholder probe of parseExpression + lexer harness/pyfrag.py; that the generator is a token-level substitution is checked per equation (model text = real text)",
         "harness translation IR JSON -> model tree; replication of compile_xmile's plugin chain in build_ir (checked: text of that IR appears in the compiled file)",
         "CPython eval evaluates the parsed tree compositionally; numeric definitions of the builtins themselves (np/math calls, self.ramp, self.rootn) are modelled as opaque calls",
+        "delay/smooth helper: the Lean model `smthH` is a transcription of jinja_template.py `smthn` (private memo not modelled: values only); the Cfg fact "
+        "`helperKeysNormalise` is a behavioural probe (DELAY1 of TIME, dt 0.1, t 0.4 on a fresh instance); that `grid_time` satisfies `HAdm` on doubles is "
+        "exercised by the grid reference on every run (dt 1, 1/4, 0.1, 0.2, 1/3, 1/7 …), proved only in C05's model of the normalisation",
     ]
     chk.assumptions = ["supported grammar: + - * / ^ MOD, unary minus, parentheses, non-chained comparisons, AND/OR between comparisons, NOT(comparison), "
                        "IF THEN ELSE in sentence positions (whole equation, parentheses, arguments, branches), identifiers, the 29 (name, arity) builtins of `vocabulary`",
                        "names: ASCII; declared with blanks/underscores/mixed case, referenced with other case, underscores for blanks, doubled underscores, quotes",
-                       "reference arithmetic: IEEE doubles with Python's `%`, `**`, round; equations whose reference value is undefined (division by zero, complex, domain) are not compared"]
+                       "reference arithmetic: IEEE doubles with Python's `%`, `**`, round; equations whose reference value is undefined (division by zero, complex, domain) are not compared",
+                       "delay/smooth family (DELAY1/3/N, SMTH3/N, DELAY, DERIVN, NPV): first argument is an identifier (anything else raises at evaluation — loud); delay time, order, "
+                       "initial value are literals; DELAY offsets are whole numbers of steps; NPV is compared with its own recurrence on grid indices (step count only); "
+                       "values compared with relative tolerance 1e-9 (the reference works on start + k*dt, the code on normalised labels); FORCST raises on this tree and is only recorded"]
+    # ---------------- corpus: minimised past failures, replayed first
+    cdir = os.path.join(VERIF, "corpus", "C03")
+    corpus_seen = {}
+    if os.path.isdir(cdir):
+        for fn in sorted(os.listdir(cdir)):
+            if not fn.endswith(".json"):
+                continue
+            ent = json.load(open(os.path.join(cdir, fn)))
+            fails, seen = replay_dict(ent["replay"])
+            corpus_seen[fn] = seen
+            chk.case(("corpus", fn), nontrivial=True)
+            if fails:
+                chk.add_finding(ent["key"], f"corpus/{fn}: {seen}", ent["replay"])
+    chk.notes["corpus"] = corpus_seen
     # ---------------- names: model vs sanitizeName
     from BPTK_Py.sdcompiler.plugins import sanitizeName
     rng = chk.rng.fork("c03")
@@ -824,7 +1056,7 @@ def run(chk):
              "values_compared": 0, "unmodelled_ir": 0}
     ndocs = 110 if chk.quick else 2500
     req, meta = [], []
-    ref_fail, corr, loud_fail = None, None, None
+    ref_fail, corr, loud_fail, delay_fail = None, None, None, None
     try:
         nout = drive("C03", nreq)
         for s, r in zip(name_cases, nout):
@@ -936,6 +1168,8 @@ def run(chk):
             if not isloud and loud_fail is None:
                 loud_fail = (form, eq, how)
         stats["malformed"] = {k: [h for _, h in v] for k, v in loud.items()}
+        # ---------------- delay / smooth family against an independent grid reference
+        delay_fail = run_delay_family(chk, rng, d, stats)
     finally:
         shutil.rmtree(d, ignore_errors=True)
     chk.cov["distribution"] = stats
@@ -943,17 +1177,24 @@ def run(chk):
                        "blanks, redundant parentheses); per equation: Lean driver validation (reference reading prints back, IR kept the tokens, model text = "
                        "real text = text of the reading, text parses to the image of the reading — Lean parser and ast.parse), reference parsers agree; "
                        "per variable × 4 times: real value = independent XMILE evaluator; 12 unsupported forms must raise; sanitizeName model vs code on "
-                       "random ASCII names. distinct = canonical input; non-trivial = more than 3 tokens / name with separator or quote characters")
+                       "random ASCII names. Systematic: a signed literal, parenthesised and bare, at every operand position of every operator and vocabulary builtin "
+                       "(~550 equations, both tiers). Delay/smooth family: lattice dt × start × input stream, every builtin at every grid point ascending on one instance and "
+                       "at two late points on fresh instances, against the cascade / shift / difference-quotient definitions on grid indices. "
+                       "distinct = canonical input; non-trivial = more than 3 tokens / name with separator or quote characters")
     # ---------------- decide
     if ref_fail is not None:
         (xml, eqs, spec), n, eq, t, got, exp = ref_fail
         small = shrink_doc(eqs, spec, n)
         chk.add_finding("value:" + classify(eq), f"variable {n!r} = {small['equation']} evaluates to {small['observed']} at t={small['t']}, XMILE semantics give {small['expected']}; emitted {small['python']}",
                         small)
+    for fkey, r in (delay_fail or {}).items():
+        chk.add_finding(fkey, f"{r.get('builtin')} {r['variables'][-1][1]} with input {r['variables'][0][1]}, start {r['start']}, dt "
+                        f"{'1/' if r['reciprocal'] else ''}{r['dt_text']}: value at grid point {r.get('k')} (t={r.get('t')}, {r.get('order')}) is {r['observed']}, "
+                        f"the definition on the time grid gives {r['expected']}", r)
     if loud_fail is not None:
         form, eq, how = loud_fail
         chk.add_finding("silent:" + form, f"unsupported equation {eq!r} does not fail: {how}", {"kind": "malformed", "form": form, "equation": eq, "observed": how})
-    if not good and ref_fail is None and loud_fail is None:
+    if not good and ref_fail is None and loud_fail is None and delay_fail is None:
         chk.add_finding("obligation", f"configuration not good ({bad or missing or 'unknown builtin does not raise'}) and no failing equation found",
                         {"theorem": "Bptk.C03.Gen.cfg_good", "not_ok": bad, "missing": missing, "witnesses": witnesses}, found_input=False)
     if not ok:
@@ -1024,25 +1265,35 @@ def shrink_doc(eqs, spec, name):
     return cur
 
 
-def replay(path):
-    quiet_bptk_logging()
-    logging.getLogger().setLevel(logging.CRITICAL)
-    r = json.load(open(path))["replay"]
+def replay_dict(r):
+    """re-run one stored input on the current tree; returns (still_fails, what was seen)"""
     if r.get("kind") == "value":
         eqs = [tuple(x) for x in r["variables"]]
         res = eval_one(eqs, tuple(r["spec"]), r["variable"])
         if res is None:
-            print(f"{r['variable']} = {r['equation']}: real value equals the XMILE reference value at all probe times")
-            return 0
-        print(f"{res['variable']} = {res['equation']} at t={res['t']}: observed {res['observed']}, expected {res['expected']}; python {res['python']}")
-        return 1
+            return False, f"{r['variable']} = {r['equation']}: real value equals the XMILE reference value at all probe times"
+        return True, f"{res['variable']} = {res['equation']} at t={res['t']}: observed {res['observed']}, expected {res['expected']}; python {res['python']}"
+    if r.get("kind") == "delay":
+        got = delay_replay(r)
+        try:
+            same = same_val_tol(float(got), float(r["expected"]))
+        except Exception:
+            same = False
+        return (not same), (f"{r['variables'][-1][1]} (input {r['variables'][0][1]}, start {r['start']}, dt {'1/' if r['reciprocal'] else ''}{r['dt_text']}) "
+                            f"at t={r.get('t')}: observed {got}, expected {r['expected']}")
     if r.get("kind") == "malformed":
         d = scratch_dir("bptkverif_c03r_")
         try:
             isloud, how = check_loud(r["form"], r["equation"], d, "r")
         finally:
             shutil.rmtree(d, ignore_errors=True)
-        print(f"{r['equation']!r}: {how}")
-        return 0 if isloud else 1
-    print(json.dumps(r, indent=1)[:2000])
-    return 1
+        return (not isloud), f"{r['equation']!r}: {how}"
+    return True, json.dumps(r, indent=1)[:2000]
+
+
+def replay(path):
+    quiet_bptk_logging()
+    logging.getLogger().setLevel(logging.CRITICAL)
+    fails, seen = replay_dict(json.load(open(path))["replay"])
+    print(seen)
+    return 1 if fails else 0
